@@ -116,7 +116,7 @@ def run(cx):
     rows = []
     for i, sc in enumerate(scens):
         s = sc["scen"]
-        at = {"deadline": 0, "tick3": 3, "tick40": 40, "reuse_idle": 1000000, "reuse_during": 3, "reuse_wait": 0, "afterreturn": 1000000}[s["at"]]
+        at = {"deadline": 0, "tick3": 3, "tick40": 40, "reuse_idle": 1000000, "reuse_during": 3, "reuse_wait": 0, "reuse_busy": 3, "afterreturn": 1000000}[s["at"]]
         row = {"id": i, "scen": s, "src": "1" if s["main"] == "crosswait" else script(s), "cancel_at": at, "deadline_ms": 60, "settle_ms": settle}
         if s["at"].startswith("reuse_"):
             row["reuse"] = s["at"][6:]
